@@ -1022,3 +1022,41 @@ def rule_eval_parent_set(db: ProgramDB) -> List[Instance]:
                             f"wrong one what to keep - one disjunctive condition object used as the root of two queries makes the query that selects more "
                             f"variables lose rows (12 pairs instead of 16)", line=s.line))
     return out
+
+
+# ---------------------------------------------------------------------------------- DEDUP-PER-PARENT
+def rule_dedup_per_parent(db: ProgramDB) -> List[Instance]:
+    """What a node has already handed on is remembered per PARENT: a node used under two parents (one or_ object in two
+    conjunctions) owes each of them its rows.  The store of seen rows is selected by the identity of the parent that is
+    evaluating the node, not by the node's own."""
+    out = []
+    se = db.cls("SymbolicExpression")
+    n = 0
+    for c in sorted([se] + se.all_subclasses(), key=lambda k: k.qualname):
+        m = c.methods.get("_is_duplicate_output_")
+        if m is None or m.cls is not c:
+            continue
+        defs = local_defs(m)
+        for x in own_nodes(m.node):
+            key = None
+            if isinstance(x, ast.Call) and call_attr(x) in ("setdefault", "get") and "by_parent" in unparse(x.func.value) and x.args:
+                key = x.args[0]
+            elif isinstance(x, ast.Subscript) and "by_parent" in unparse(x.value):
+                key = x.slice
+            if key is None:
+                continue
+            n += 1
+            srcs = [key] + [d for y in ast.walk(key) if isinstance(y, ast.Name) for d in defs.get(y.id, []) if isinstance(d, ast.AST)]
+            from_parent = any(isinstance(y, ast.Attribute) and y.attr in ("_parent_", "_eval_parent_") for s_ in srcs for y in ast.walk(s_))
+            out.append(inst("DEDUP-PER-PARENT", HOLDS if from_parent else VIOLATION, m, f"{m.short}[{unparse(x)[:50]}]",
+                            "the store of seen rows is selected by the parent that evaluates the node" if from_parent else
+                            f"`{unparse(key)}` selects the store of seen rows without regard to the parent: an or_ object used under two conjunctions hands its row "
+                            f"to the first and suppresses it as a duplicate for the second - a qualifying object is lost", line=x.lineno))
+    if n == 0:
+        # a class-wide store (no per-parent dimension at all) is the same defect
+        m = se.methods.get("_is_duplicate_output_")
+        if m is None:
+            raise AnalysisError("SymbolicExpression._is_duplicate_output_ not found")
+        out.append(inst("DEDUP-PER-PARENT", VIOLATION, m, f"{m.short}[per-parent store]",
+                        "the duplicate test keeps one store of seen rows per node, not one per parent"))
+    return out
